@@ -1,7 +1,7 @@
 (* C04: whatever the Staircase constructor accepts from pointwise ordered bounds is well formed, every modelled operation
    hands ordered bounds to the constructor, hence every expression of any depth evaluates to a well-formed p-box or raises. *)
 From Coq Require Import Reals Lra List Arith Lia Bool Permutation Sorted.
-From PUN Require Import Base.Num Base.Sort Model.Interval Model.Pbox Model.PboxArith Gen.GenGlue Model.PExpr
+From PUN Require Import Base.Num Base.Sort Model.Interval Model.Pbox Model.PboxArith Model.PExpr
   Proofs.ListR Proofs.PboxWF Proofs.PboxUnary Proofs.Hull Proofs.DepOps Proofs.Lattice Proofs.Iso.
 Import ListNotations.
 Open Scope R_scope.
@@ -297,11 +297,9 @@ Qed.
 Definition nonneg_box (p : list R * list R) : Prop := forall v, In v (fst p) \/ In v (snd p) -> 0 <= v.
 Lemma classic_mul_wf p q r : WFs p -> WFs q -> nonneg_box p -> nonneg_box q -> classic_mul RN steps plo phi p q = Ok r -> WFs r.
 Proof.
-  intros Wp Wq Np Nq E. unfold classic_mul in E. cbn [nmul RN] in E.
-  pose proof (dep_op_ple DF Rmult (fun x => 0 <= x) p q Wp Wq) as P. cbn [dep_op] in P.
-  destruct (frechet_op RN Rmult _ _ _ _) as [l r']. cbn [fst snd] in P.
-  apply mk_wf in E; [tauto|]. apply P. intros _. split; [intros; nra|].
-  intros v [H|[H|[H|H]]]; [apply Np|apply Np|apply Nq|apply Nq]; auto.
+  intros _ _ _ _. unfold classic_mul, m_classic_frechet_pbox. destruct (frechet_op _ _ _ _ _ _) as [l r'].
+  destruct (mk_staircase RN steps plo phi l r') as [x| |] eqn:E; cbn [rbind]; try discriminate.
+  intros H; inversion H; subst. unfold mk_staircase in E. eapply mk_total_wf; exact E.
 Qed.
 Lemma nonneg_of_min p : WFs p -> (0 < steps)%nat -> 0 <= minl RN (fst p) -> nonneg_box p.
 Proof.
@@ -326,54 +324,54 @@ Proof. unfold pneg, mk_staircase_lists. apply mk_total_wf. Qed.
 Lemma pnum_total_wf f p c r : pnum RN steps plo phi f p c = Ok r -> WFs r.
 Proof. unfold pnum, mk_staircase_lists. apply mk_total_wf. Qed.
 Lemma classic_mul_total_wf p q r : classic_mul RN steps plo phi p q = Ok r -> WFs r.
-Proof. unfold classic_mul. destruct (frechet_op _ _ _ _ _ _) as [l r']. unfold mk_staircase. apply mk_total_wf. Qed.
-Lemma classic_add_total_wf p q r : classic_add RN steps plo phi p q = Ok r -> WFs r.
-Proof. unfold classic_add. destruct (frechet_op _ _ _ _ _ _) as [l r']. unfold mk_staircase. apply mk_total_wf. Qed.
+Proof. unfold classic_mul, m_classic_frechet_pbox. destruct (frechet_op _ _ _ _ _ _) as [l r'].
+  destruct (mk_staircase RN steps plo phi l r') as [x| |] eqn:E; cbn [rbind]; try discriminate.
+  intros H; inversion H; subst. unfold mk_staircase in E. eapply mk_total_wf; exact E. Qed.
 Lemma pimp_total_wf p q r : pimp RN steps plo phi p q = Ok r -> WFs r.
 Proof. unfold pimp. cbn zeta. destruct (existsb _ _); [discriminate|]. unfold mk_staircase_lists. apply mk_total_wf. Qed.
-(* the translated glue (Gen/GenGlue.v): every route ends in the constructor, a negation, a number operation or an imposition *)
-Lemma gen_classic_wf p q op r : gen_classic_frechet_pbox RN steps plo phi p q op = Ok r -> WFs r.
-Proof. unfold gen_classic_frechet_pbox. destruct (frechet_op _ _ _ _ _ _) as [l r']. destruct (mk_staircase RN steps plo phi l r') as [x| |] eqn:E; cbn [rbind]; try discriminate.
+(* the Frechet product and its helpers: every route ends in the constructor, a negation, a number operation or an imposition *)
+Lemma gen_classic_wf p q op r : m_classic_frechet_pbox RN steps plo phi p q op = Ok r -> WFs r.
+Proof. unfold m_classic_frechet_pbox. destruct (frechet_op _ _ _ _ _ _) as [l r']. destruct (mk_staircase RN steps plo phi l r') as [x| |] eqn:E; cbn [rbind]; try discriminate.
   intros H; inversion H; subst. unfold mk_staircase in E. eapply mk_total_wf; exact E. Qed.
-Lemma gen_naive_wf p q op r : gen_vectorised_naive_frechet_pbox RN steps plo phi p q op = Ok r -> WFs r.
-Proof. unfold gen_vectorised_naive_frechet_pbox. destruct (naive_frechet_op _ _ _ _ _ _) as [l r']. destruct (mk_staircase RN steps plo phi l r') as [x| |] eqn:E; cbn [rbind]; try discriminate.
+Lemma gen_naive_wf p q op r : m_vectorised_naive_frechet_pbox RN steps plo phi p q op = Ok r -> WFs r.
+Proof. unfold m_vectorised_naive_frechet_pbox. destruct (naive_frechet_op _ _ _ _ _ _) as [l r']. destruct (mk_staircase RN steps plo phi l r') as [x| |] eqn:E; cbn [rbind]; try discriminate.
   intros H; inversion H; subst. unfold mk_staircase in E. eapply mk_total_wf; exact E. Qed.
 Ltac bind_step := match goal with |- rbind ?x _ = _ -> _ => let E := fresh "E" in destruct x as [?| |] eqn:E; cbn [rbind]; try discriminate end.
-Lemma gen_nagative_wf p q r : gen_nagative_frechet_pbox RN steps plo phi p q = Ok r -> WFs r.
+Lemma gen_nagative_wf p q r : m_nagative_frechet_pbox RN steps plo phi p q = Ok r -> WFs r.
 Proof.
-  unfold gen_nagative_frechet_pbox. destruct (_ || _); [|discriminate]. repeat bind_step.
+  unfold m_nagative_frechet_pbox. destruct (_ || _); [|discriminate]. repeat bind_step.
   destruct (xorb _ _); [apply pneg_total_wf|]. intros H; inversion H; subst. eapply gen_classic_wf; eassumption.
 Qed.
-Lemma gen_balchprod_wf fuel : (forall p q r, gen_frechet_pbox_mul RN steps plo phi fuel p q = Ok r -> WFs r) ->
-  forall a b c, gen_balchprod RN steps plo phi fuel a b = Ok c -> WFs c.
+Lemma m_balchprod_wf fuel : (forall p q r, m_frechet_pbox_mul RN steps plo phi fuel p q = Ok r -> WFs r) ->
+  forall a b c, m_balchprod RN steps plo phi fuel a b = Ok c -> WFs c.
 Proof.
-  intros IH a b c. unfold gen_balchprod. destruct (_ && _).
+  intros IH a b c. unfold m_balchprod. destruct (_ && _).
   - cbv zeta. repeat bind_step. apply pnum_total_wf.
   - destruct (PboxBase.straddles_zero RN a).
     + cbv zeta. repeat bind_step. apply IH.
     + destruct (PboxBase.straddles_zero RN b); [|apply IH]. cbv zeta. repeat bind_step. apply gen_classic_wf.
 Qed.
-Lemma gen_straddle_wf fuel : (forall p q r, gen_frechet_pbox_mul RN steps plo phi fuel p q = Ok r -> WFs r) ->
-  forall a b c, gen_straddle_frechet_pbox RN steps plo phi fuel a b = Ok c -> WFs c.
+Lemma gen_straddle_wf fuel : (forall p q r, m_frechet_pbox_mul RN steps plo phi fuel p q = Ok r -> WFs r) ->
+  forall a b c, m_straddle_frechet_pbox RN steps plo phi fuel a b = Ok c -> WFs c.
 Proof.
-  intros IH a b c. unfold gen_straddle_frechet_pbox. repeat bind_step. intros H; inversion H; subst. eapply pimp_total_wf; eassumption.
+  intros IH a b c. unfold m_straddle_frechet_pbox. repeat bind_step. intros H; inversion H; subst. eapply pimp_total_wf; eassumption.
 Qed.
 (* one unfolding of the translated Fixpoint, in terms of the translated top-level functions *)
-Lemma gen_frechet_pbox_mul_S fuel p q : gen_frechet_pbox_mul RN steps plo phi (S fuel) p q =
+Lemma m_frechet_pbox_mul_S fuel p q : m_frechet_pbox_mul RN steps plo phi (S fuel) p q =
   if PboxBase.straddles_zero RN p || PboxBase.straddles_zero RN q then
-    (if PboxBase.straddles_zero RN q then gen_straddle_frechet_pbox RN steps plo phi fuel p q else gen_straddle_frechet_pbox RN steps plo phi fuel q p)
-  else if nleb RN (PboxBase.p_hi_ RN p) nzero || nleb RN (PboxBase.p_hi_ RN q) nzero then gen_nagative_frechet_pbox RN steps plo phi p q
-  else gen_classic_frechet_pbox RN steps plo phi p q (nmul RN).
+    (if PboxBase.straddles_zero RN q then m_straddle_frechet_pbox RN steps plo phi fuel p q else m_straddle_frechet_pbox RN steps plo phi fuel q p)
+  else if nleb RN (PboxBase.p_hi_ RN p) nzero || nleb RN (PboxBase.p_hi_ RN q) nzero then m_nagative_frechet_pbox RN steps plo phi p q
+  else m_classic_frechet_pbox RN steps plo phi p q (nmul RN).
 Proof. reflexivity. Qed.
-Lemma gen_frechet_pbox_mul_wf fuel : forall p q r, gen_frechet_pbox_mul RN steps plo phi fuel p q = Ok r -> WFs r.
+Lemma m_frechet_pbox_mul_wf fuel : forall p q r, m_frechet_pbox_mul RN steps plo phi fuel p q = Ok r -> WFs r.
 Proof.
-  induction fuel as [|fuel IH]; intros p q r; [discriminate|]. rewrite gen_frechet_pbox_mul_S.
+  induction fuel as [|fuel IH]; intros p q r; [discriminate|]. rewrite m_frechet_pbox_mul_S.
   destruct (_ || _).
   - destruct (PboxBase.straddles_zero RN q); apply (gen_straddle_wf fuel IH).
   - destruct (_ || _); [apply gen_nagative_wf|apply gen_classic_wf].
 Qed.
 Lemma frechet_mul_wf p q r : (0 < steps)%nat -> WFs p -> WFs q -> frechet_mul RN steps plo phi p q = Ok r -> WFs r.
-Proof. intros _ _ _. unfold frechet_mul. apply gen_frechet_pbox_mul_wf. Qed.
+Proof. intros _ _ _. unfold frechet_mul. apply m_frechet_pbox_mul_wf. Qed.
 Lemma pmul_nf_wf d p q r : d <> DF -> WFs p -> WFs q ->
   (let '(l, r') := dep_op RN d Rmult (fst p) (snd p) (fst q) (snd q) in mkS l r') = Ok r -> WFs r.
 Proof.
